@@ -172,6 +172,8 @@ fn exec_line(line: &str) -> String {
                 resp::Reads::Drain(resp::DRAIN_BYTES)
             } else if rds.starts_with('W') {
                 resp::Reads::Drain(resp::DRAIN_WRITE_TO)
+            } else if rds.starts_with('J') {
+                resp::Reads::Drain(resp::DRAIN_JSON)
             } else if rds.starts_with('S') {
                 resp::Reads::Drain(resp::DRAIN_SPLIT)
             } else if rds.starts_with('Q') {
